@@ -205,39 +205,60 @@ Fixpoint fill (r : body) (b : body) : body :=
   | BIdx0 a => BIdx0 (fill r a)
   end.
 
-(* old = true: before b71cf14 (no check that the index is only used in x[i]).
+(* the names written in a module: what the bindings bind + what the expression mentions *)
+Fixpoint bnames (b : body) : list name :=
+  match b with
+  | BHole | BInt _ => []
+  | BVar v => [v]
+  | BAdd a c | BPair a c => bnames a ++ bnames c
+  | BIdx0 a => bnames a
+  end.
+Fixpoint names_e (e : expr) : list name :=
+  match e with
+  | EVar x => [x]
+  | ESub x i b => x :: i :: bnames b
+  | EFor v x b => v :: x :: bnames b
+  | EListOf e1 | EZip e1 | ERows e1 | ELen e1 => names_e e1
+  end.
+Definition memn (n : name) (l : list name) : bool := existsb (Nat.eqb n) l.
+
+(* old = true: before b71cf14 (no check that the index is only used in x[i]); nocap = true: before 6ebed2a (no check
+   that the new name x_i is not in use); used = the names written in the module.
    _simple_cases (performance.py:396-447): the element IS x[i] -> list(x).
-   _complex_cases (449-507): exactly one x[i] (the comparison in 489 is against a one-element set: other uses of x,
-   like x[0] or x alone, do not stop the rule), the index not used elsewhere (492-496) -> [b(x_i) for x_i in x]. *)
-Definition sub_root (old : bool) (x i : name) (b : body) : expr :=
+   _complex_cases (449-509): exactly one x[i] (the comparison in 489 is against a one-element set: other uses of x,
+   like x[0] or x alone, do not stop the rule), the index not used elsewhere (492-496), the new name not in use
+   (498-500) -> [b(x_i) for x_i in x]. *)
+Definition sub_root (old nocap : bool) (used : list name) (x i : name) (b : body) : expr :=
   match b with
   | BHole => EListOf (EVar x)
-  | _ => if Nat.eqb (holes b) 1 && (old || negb (mentions i b))
+  | _ => if Nat.eqb (holes b) 1 && (old || negb (mentions i b)) && (nocap || negb (memn (join x i) used))
          then EFor (join x i) x (fill (BVar (join x i)) b)
          else ESub x i b
   end.
-Fixpoint sub_with (old : bool) (e : expr) : expr :=
+Fixpoint sub_with (old nocap : bool) (used : list name) (e : expr) : expr :=
   match e with
   | EVar _ | EFor _ _ _ => e
-  | ESub x i b => sub_root old x i b
-  | EListOf e1 => EListOf (sub_with old e1)
-  | EZip e1 => EZip (sub_with old e1)
-  | ERows e1 => ERows (sub_with old e1)
-  | ELen e1 => ELen (sub_with old e1)
+  | ESub x i b => sub_root old nocap used x i b
+  | EListOf e1 => EListOf (sub_with old nocap used e1)
+  | EZip e1 => EZip (sub_with old nocap used e1)
+  | ERows e1 => ERows (sub_with old nocap used e1)
+  | ELen e1 => ELen (sub_with old nocap used e1)
   end.
-Definition sub := sub_with false.
-Definition sub_before_b71cf14 := sub_with true.
+Definition sub := sub_with false false.
+Definition sub_before_b71cf14 := sub_with true false.
+Definition sub_before_6ebed2a := sub_with false true.
 
 (* guard of the _partial theorem: x is not the index, x holds a sequence whose __getitem__ agrees with iteration
-   (or nothing iterable at all), the new name is not mentioned *)
+   (or nothing iterable at all); covers: used really lists the names the expression mentions *)
 Definition seq_like (o : option val) : bool :=
   match o with Some (VIter _) | Some (VDict _) => false | _ => true end.
 Fixpoint sub_ok (en : env) (e : expr) : bool :=
   match e with
   | EVar _ | EFor _ _ _ => true
-  | ESub x i b => negb (Nat.eqb x i) && seq_like (lookup en x) && negb (mentions (join x i) b)
+  | ESub x i b => negb (Nat.eqb x i) && seq_like (lookup en x)
   | EListOf e1 | EZip e1 | ERows e1 | ELen e1 => sub_ok en e1
   end.
+Definition covers (used : list name) (e : expr) : bool := forallb (fun n => memn n used) (names_e e).
 
 (* ---------------------------------------------------------------- fixes.simplify_transposes *)
 (* zip( *zip( *e)) -> e, anywhere, to the normal form (fixes.py:2804-2806, 2841-2845; no guard at all) *)
@@ -298,9 +319,11 @@ Definition exc_code (x : exc) : nat :=
   match x with TypeErr => 1 | IndexErr => 2 | KeyErr => 3 | NameErr => 4 end%nat.
 
 Inductive irule := RSub | RTr.
-Definition apply_rule (r : irule) (e : expr) : expr := match r with RSub => sub e | RTr => transp e end.
-Definition rule_case_ok (c : irule * expr * expr) : bool :=
-  let '(r, p, q) := c in expr_eqb (apply_rule r p) q.
+Definition apply_rule (r : irule) (used : list name) (e : expr) : expr :=
+  match r with RSub => sub used e | RTr => transp e end.
+(* rule cases: rule, the names the bindings bind, input, expected output *)
+Definition rule_case_ok (c : irule * list name * expr * expr) : bool :=
+  let '(r, bound, p, q) := c in expr_eqb (apply_rule r (bound ++ names_e p) p) q.
 (* semantics cases: environment, expression, expected exception code (0 = none) and value *)
 Definition sem_case_ok (c : env * expr * nat * val) : bool :=
   let '(en, e, code, v) := c in
